@@ -27,8 +27,9 @@ Crash sites (explicit outcomes):
   `tightening_steps_from_other_to_that_constraints` on `len_constraint`/`patterns`
   (those on the set constraints are outside the model),
 * `modelTypeProperty` — `assert "modelType" not in properties` in `_generate_inheritable_definition`,
-* `descendantsWithoutModelType` — `assert cls.serialization.with_model_type` in
-  `_generate_concrete_definition`,
+* `descendantsWithoutModelType` — a class with concrete descendants but without model type: an
+  `AssertionError` on the pinned tree, an `Error` returned by `_generate_concrete_definition` since
+  builder c02's `fix:` (then `generate` = `Res.err`; `Crash.isError`),
 * `primitiveMap` — `_PRIMITIVE_MAP[primitive_type]` without an entry (`KeyError`; the module-level
   `assert` makes the import fail first).
 Not expressible in `TA` (preconditions of the wire form): a list of optionals (`assert` in
@@ -111,6 +112,13 @@ inductive Crash where
   | descendantsWithoutModelType
   | primitiveMap
   deriving DecidableEq, Repr, Inhabited
+
+/-- `descendantsWithoutModelType` is not a raise (any more): `_generate_concrete_definition` returns an
+`Error` and `generate` reports it; it is kept in the `Except` channel of the model and turned into
+`Res.err` by `collect`. -/
+def Crash.isError : Crash → Bool
+  | .descendantsWithoutModelType => true
+  | _ => false
 
 def Crash.pyName : Crash → String
   | .patternValueError => "ValueError"
@@ -308,14 +316,28 @@ def tightening (that : Cons) : Option Cons → Except Crash Cons
       | .error c => .error c
       | .ok ps => .ok ⟨l, ps⟩
 
-/-- the loop over `cls.inheritances` in `_define_properties` -/
-def tightenAll (that : Cons) : List (Option Cons) → Except Crash Cons
-  | [] => .ok that
-  | none :: ps => tightenAll that ps
-  | some pc :: ps =>
-    match tightening that (some pc) with
+/-- `_common_tightening_steps`: the steps which are both in `this` and in `that` -/
+def commonSteps (this that : Cons) : Cons :=
+  ⟨if that.len.isSome then this.len else none,
+   match this.pats, that.pats with
+   | some tp, some op =>
+     let r := tp.filter (op.contains ·)
+     if r.isEmpty then none else some r
+   | _, _ => none⟩
+
+/-- the loop over `cls.inheritances` in `_define_properties`: the steps from every constraining
+parent are computed against the COMPLETE constraints `full` of the class, and only the steps common
+to all of them are kept (`steps` starts as `full`) -/
+def tightenLoop (full : Cons) : Cons → List (Option Cons) → Except Crash Cons
+  | steps, [] => .ok steps
+  | steps, none :: ps => tightenLoop full steps ps
+  | steps, some pc :: ps =>
+    match tightening full (some pc) with
     | .error c => .error c
-    | .ok t => tightenAll t ps
+    | .ok fromParent => tightenLoop full (commonSteps steps fromParent) ps
+
+def tightenAll (full : Cons) (parents : List (Option Cons)) : Except Crash Cons :=
+  tightenLoop full full parents
 
 /-! ## `_define_properties`, `_list_required_properties` -/
 
@@ -395,7 +417,7 @@ def modelTypeConst (mt : Text) : Schema := .mk [.const mt]
 /-- `_generate_concrete_definition` -/
 def concreteDefinition (c : Cls) : Except Crash (Text × Schema) :=
   if !c.cdesc.isEmpty then
-    if !c.withModelType then .error .descendantsWithoutModelType
+    if !c.withModelType then .error .descendantsWithoutModelType  -- reported as an `Error` (see `Crash.isError`)
     else .ok (c.mt, .mk [.allOf [refTo (sfx c.mt "_abstract"),
                                  .mk [.properties [(modelTypeKey, modelTypeConst c.mt)]]]])
   else
@@ -457,7 +479,7 @@ def collect (inProps : List Text) : List OurType → Defs → Bool → Res (Defs
   | [], defs, dup => .ok (defs, dup)
   | t :: ts, defs, dup =>
     match typeDefinitions inProps t with
-    | .error c => .crash c
+    | .error c => if c.isError then collect inProps ts defs true else .crash c
     | .ok ds =>
       match addDefs defs ds with
       | none =>
